@@ -115,9 +115,14 @@ def strategy(spec, ctx):
 
 
 def shards(tier):
-    n = 16 if tier == 'quick' else 64
-    return [{'examples': 1500 if tier == 'quick' else 8000, 'max_leaves': 4 + (i % 3)} for i in range(n)]
+    n = 15 if tier == 'quick' else 63
+    return [{'examples': 1500 if tier == 'quick' else 8000, 'max_leaves': 4 + (i % 3)} for i in range(n)] + [{'mode': 'manycaps'}]
 
 
 def run_shard(spec, ctx):
+    if spec.get('mode') == 'manycaps':
+        from pbt.common import run_enumeration
+        from pbt.props.c02 import manycaps_cases
+        run_enumeration(ctx, manycaps_cases(), check_case, '10-13 capturing groups x two-digit backreference x digit-leading literal x spelling')
+        return
     run_hypothesis(ctx, strategy(spec, ctx), check_case, spec['examples'])
